@@ -19,7 +19,7 @@ import (
 	"github.com/nats-io/nats.go"
 )
 
-const nctWatch = 5 * time.Second
+const nctWatch = 3 * time.Second
 
 type nctRun struct {
 	srv    *natsd.Server
@@ -57,7 +57,7 @@ func nctConnect(url string) (*nats.Conn, error) {
 }
 
 func waitStatus(c *nats.Conn, want func(nats.Status) bool) bool {
-	for dl := time.Now().Add(nctWatch); time.Now().Before(dl); time.Sleep(200 * time.Microsecond) {
+	for w := newWd(nctWatch); !w.Expired(); time.Sleep(200 * time.Microsecond) {
 		if want(c.Status()) {
 			return true
 		}
@@ -117,7 +117,7 @@ func runNct(hist []byte) (string, []string) {
 
 	call := func(f func() string) string {
 		res := ""
-		if o := guard(nctWatch, func() { res = f() }); o != "" {
+		if o := laGuard(nctWatch, func() { res = f() }); o != "" {
 			return o
 		}
 		return res
@@ -191,7 +191,7 @@ func runNct(hist []byte) (string, []string) {
 		case 3:
 			o = call(func() string {
 				ctx := frugal.NewFContext("")
-				ctx.SetTimeout(time.Second)
+				ctx.SetTimeout(20 * time.Second)
 				id, _ := ctx.RequestHeader("_opid")
 				var op uint64
 				fmt.Sscan(id, &op)
